@@ -426,7 +426,7 @@ class C16(Engine):
             # listing / output writers (never ends when high_address is 0xffffffff, minutes for GiB spans)
             ck = "hang:after-pass-2:byte-wise-walk-of-the-address-span"
         if ck is not None and ck.startswith("hang:") and self.legit_long(plan):
-            # a repeat count in the millions is work the source asked for, not a hang
+            # a repeat count / reservation / alignment in the millions is work the source asked for, not a hang
             res.probe("long_repeat_not_judged")
             ck = None
         if ck is not None:
@@ -451,9 +451,9 @@ class C16(Engine):
     @staticmethod
     def legit_long(plan):
         for text in plan["files"].values():
-            for m in re.finditer(r"\.(?:repeat|resb|resw|dc\.?\w*|align\w*)\s+(0x[0-9a-fA-F]+|\d+)", text):
+            for m in re.finditer(r"\.(?:repeat|resb|resw|align\w*)\s+(-?\s*(?:0x[0-9a-fA-F]+|\d+))", text):
                 try:
-                    if int(m.group(1), 0) > 200000:
+                    if abs(int(m.group(1).replace(" ", ""), 0)) > 200000:
                         return True
                 except ValueError:
                     pass
